@@ -1,8 +1,13 @@
 (* C05 — the synthesized Rabin(1) implementation.  Statements only.
 
-   Model: GenProofs/TransducerModel.v (hand-written, tied to
-   gr1.make_rabin_transducer by the correspondence check) over the GENERATED
-   _controllable_action, step, _make_init and solver.
+   Model: the construction TRANSLATED from gr1.make_rabin_transducer on every
+   run (gen/TransducerGen.v, tie T).  C05_construction_is_translated shows
+   that whenever the translated construction succeeds, the action it stores
+   is [rabin_action] (GenProofs/TransducerModel.v) over the GENERATED
+   _controllable_action and step, its initial condition is the generated
+   _make_init of "_goal = 0 /\ _hold = none", and the generated is_realizable
+   holds.  What remains compared rather than translated is the arena: how
+   the two memory variables are laid out in the component's valuations.
 
    Proved for arbitrary iterate lists: (a) every allowed step satisfies the
    specified component action under the mode's causality rule; (b) a Moore
@@ -25,9 +30,28 @@
 From Coq Require Import List Bool Arith Lia.
 Import ListNotations.
 From Omega Require Import L4.Arena L4.Kleene L4.Tables.
-From OmegaGen Require Import FixpointGen Gr1Gen.
-From OmegaGP Require Import TransducerModel StreettTProofs RabinTProofs RabinTProofs2.
+From OmegaGen Require Import FixpointGen Gr1Gen TransducerGen.
+From OmegaGP Require Import TransducerModel TransducerBridge StreettTProofs RabinTProofs
+  RabinTProofs2.
 Local Open Scope bool_scope.
+
+Theorem C05_construction_is_translated :
+  forall nc nx ny H G (E S EI SI : bdd) (holds goals : list bdd) (moore plus_one : bool)
+         qinit fuel zk yki xkijr a i,
+  RabinGen.make_rabin_transducer nc nx ny H G E S EI SI holds goals moore
+    plus_one qinit fuel zk yki xkijr = Some (a, i) ->
+  a = rabin_action nc nx ny H G E S holds goals moore plus_one zk yki xkijr /\
+  Gr1Gen.make_init nc nx (ny * (H * G)) EI SI plus_one qinit fuel
+    (rabin_init_count nc nx ny H G holds) (last zk bfalse) = Some i /\
+  Gr1Gen.is_realizable nc nx (ny * (H * G)) EI SI plus_one qinit fuel
+    (last zk bfalse) = Some true /\
+  1 <= length holds /\ 1 <= length goals /\
+  beq nc nx (ny * (H * G)) a bfalse = false.
+Proof.
+  intros nc nx ny H G E S EI SI holds goals moore plus_one qinit fuel zk yki xkijr a i.
+  exact (rabin_generated_some nc nx ny E S EI SI holds goals moore plus_one qinit H G
+           fuel zk yki xkijr a i).
+Qed.
 
 Section C05.
 Variables nc nx ny H G : nat.
@@ -149,6 +173,7 @@ Example C05_refuted_stale_hold :
 Proof. vm_compute. repeat split; repeat constructor. Qed.
 End Refuted_stale_hold.
 
+Print Assumptions C05_construction_is_translated.
 Print Assumptions C05_refines_component_action.
 Print Assumptions C05_moore_independent_of_next_env.
 Print Assumptions C05_memory_in_range.
